@@ -403,8 +403,20 @@ class PaneOptions:
         return dataclasses.replace(self, **{k: v for (k, v) in changes.items() if v is not None})
 
 
-@functools.lru_cache(maxsize=256)
+def _param_key(ty: t.Any) -> t.Any:
+    # typing compares Union[A, B] == Union[B, A]; for conversion the order of the members matters
+    args = t.get_args(ty)
+    if not len(args):
+        return ty
+    return (t.get_origin(ty), tuple(map(_param_key, args)))
+
+
 def _make_subclass(cls: t.Any, params: t.Tuple[t.Any, ...]) -> type:
+    return _make_subclass_cached(cls, params, tuple(map(_param_key, params)))
+
+
+@functools.lru_cache(maxsize=256)
+def _make_subclass_cached(cls: t.Any, params: t.Tuple[t.Any, ...], _key: t.Any) -> type:
     sup: t.Any = super(PaneBase, cls)
     if not hasattr(sup, '__class_getitem__'):
         raise TypeError(f"type '{cls}' is not subscriptable")
